@@ -73,10 +73,14 @@ C02Self(n, b1, p, b2) ==
 
 \* C05  sizeof is exact when it answers.   cs = <<sizeof, build or parse>>
 \* a build counts when what it wrote is a valid encoding (RawCopy writes caller-supplied raw data unchecked)
-ValidEncoding(n, x) == LET mp == ParseCall(n, x.res.v.b, 0, x.kw) IN ~IsOOM(mp) /\ mp.ok /\ Tell(mp.s) = Len(x.res.v.b)
+ValidEncoding(n, x) ==
+    LET bytes == IF x.op = "build" THEN x.res.v.b ELSE SubSeq(x.data, x.start + 1, x.res.p)
+        mp == ParseCall(n, bytes, 0, x.kw)
+    IN /\ ~IsOOM(mp) /\ mp.ok /\ Tell(mp.s) = Len(bytes)
+       /\ LET mb == BuildCall(n, mp.v, <<>>, x.kw) IN ~IsOOM(mb) /\ mb.ok /\ mb.s.data = bytes
 C05Exact(n, z, x) ==
     Tri(z.res.ok /\ x.res.ok /\ ~AnyNode(n, {"ProcessXor", "ProcessRotateLeft", "NullStripped", "Seek", "Pointer", "RestreamData"})
-        /\ (x.op = "build" /\ AnyNode(n, {"RawCopy"}) => ValidEncoding(n, x)),
+        /\ (AnyNode(n, {"RawCopy"}) => ValidEncoding(n, x)),
         ~z.res.v.neg /\ VInt(Advance(x)) = z.res.v)
 \* ... and fails only with SizeofError
 \* premise "validly parameterised": the model answers or says SizeofError (negative lengths, modulus < 2,
@@ -133,7 +137,8 @@ C18Trunc(n, full, cut) ==
     LET j == Len(cut.data)
         chain == SortByAt(ChainAt(full.events, 1, j, <<>>, <<>>))
         names == <<"(parsing)">> \o [i \in 1..Len(chain) |-> chain[i].nm]
-    IN Tri(Sequential(n) /\ NoRecover(n) /\ full.res.ok /\ ~cut.res.ok /\ IsConstructError(cut.res.err) /\ j < full.res.p,
+    \* NullStripped removes trailing pad bytes of whatever is left: after a cut the member boundaries inside it move
+    IN Tri(Sequential(n) /\ NoRecover(n) /\ ~AnyNode(n, {"NullStripped"}) /\ ~HasNonConsumingTerminator(n) /\ full.res.ok /\ ~cut.res.ok /\ IsConstructError(cut.res.err) /\ j < full.res.p,
            /\ IsPrefixSeq(cut.res.path, names)
            /\ (~AnyNode(n, PreReading)) => cut.res.path = names)
 
@@ -178,7 +183,7 @@ C10BitRef(n, b) ==
 \* the error Peek recovers from)
 TruncatedLookahead(n, i) == AnyNode(n, {"Peek"}) /\ \E k \in 1..Len(i.events) : i.events[k].e = "out" /\ ~i.events[k].ok /\ i.events[k].err = "StreamError"
 C04Equiv(n, i, c) ==
-    Tri(i.res.ok /\ ~TruncatedLookahead(n, i),
+    Tri(i.res.ok,
         c.res.ok /\ ValEq(i.res.v, c.res.v) /\ (i.op = "parse" => i.res.p = c.res.p))
 
 \* C16  lazy parsing is observationally equal to eager parsing under any access order.
